@@ -108,6 +108,8 @@ func (s *stmt) Query(args []driver.Value) (driver.Rows, error) {
 
 type rows struct{ pos int }
 
+var rowBuf = make([]byte, 256)
+
 func (r *rows) Columns() []string { return cur.cols }
 func (r *rows) Close() error      { return nil }
 func (r *rows) Next(dest []driver.Value) error {
@@ -115,10 +117,25 @@ func (r *rows) Next(dest []driver.Value) error {
 		return ErrBoom
 	}
 	if r.pos >= len(cur.rows) {
+		for j := range rowBuf {
+			rowBuf[j] = 'X'
+		}
 		return io.EOF
 	}
+	// []byte values live in the driver's row buffer, which is reused for every row: as the
+	// database/sql contract says, they are only valid until the next call to Next
+	for j := range rowBuf {
+		rowBuf[j] = 'X'
+	}
+	off := 0
 	for i := range dest {
-		dest[i] = cur.rows[r.pos][i]
+		v := cur.rows[r.pos][i]
+		if b, ok := v.([]byte); ok {
+			n := copy(rowBuf[off:], b)
+			v = rowBuf[off : off+n : off+n]
+			off += n
+		}
+		dest[i] = v
 	}
 	r.pos++
 	return nil
